@@ -62,6 +62,42 @@ PROPS["C16"] = {
     "rule": "Same history generator as C09; per history every failing write index k (exhaustive) x acceptance length {0, random proper prefix, all}.",
     "trusted": ["compress/flate, snappy determinism (fault-free and faulty runs compress identically)"],
 }
+PROPS["C12"] = {
+    "lean_modules": ["AvroModel.Props.C12"],
+    "required_theorems": ["discipline_no_race", "lockOK_preserved", "inv_preserved", "disciplined_state_no_race",
+                          "sections_isolated", "lockfree_steps_commute", "section_step_delays", "section_step_advances", "unlock_never_faults", "all_guarded", "guarded_rows", "all_guarded_rows",
+                          "guarded_programs_checked", "library_no_race", "codecs_immutable", "per_call_state_not_shared",
+                          "registry_confluent", "registry_lookup_insert", "registry_inserts_commute"],
+    "harness": ["C12"],
+    "race": True,
+    "level_text": "PARTIAL BY NATURE (the Go scheduler and memory model are not modelled). Proved in Lean: (1) in an interleaving "
+                  "semantics of threads x RW-mutexes x plain shared variables, every execution of programs that respect a lock "
+                  "discipline (writes under the variable's mutex held exclusively, reads under it in any mode, unguarded variables "
+                  "never written, well-bracketed locking) is free of data races - with the two preservation lemmas (steps keep the "
+                  "mutex state consistent; checked programs stay checked), isolation of critical sections on the same mutex, lock-free steps of disciplined threads are both-movers "
+                  "(they commute with adjacent steps of other threads to the same state, so a critical section can be gathered into "
+                  "one uninterrupted block; the full reduction theorem is not proved) and unlock-never-faults; (2) the discipline predicate Guarded evaluates to true (kernel `decide`) on the table of "
+                  "every syntactic access to every package-level variable of avro, avro/time, avro/null with the mutexes held there, "
+                  "REGENERATED from the Go sources by go/ast on every run (removing or narrowing a lock breaks theorem all_guarded); "
+                  "(3) no Codec method assigns through its receiver or writes package state; per-call state types are never stored in "
+                  "package-level variables; registry look-ups are unaffected by registrations of other keys. Not modelled: the Go "
+                  "memory model below lock acquire/release, sync.Pool internals (atomic steps), the scheduler, pointer aliasing, the "
+                  "call graph. Searched: a -race build of the harness runs N goroutines x random mixes of the operations the "
+                  "property lists (codec building, Register/RegisterSchema of private types, shared-codec decode/encode, Encoder + "
+                  "ReadFile, banks closed on other goroutines, timestamp parsing with 1681 zone offsets) under several GOMAXPROCS; "
+                  "a race report or a concurrent-vs-alone result mismatch is a failing input.",
+    "level_note": "PARTIAL: proved = lock discipline => race freedom in the model + discipline holds for the regenerated facts + codec "
+                  "immutability; not modelled = Go memory model, sync.Pool internals, scheduler; searched = race-detector runs. "
+                  "Trusted: Lean kernel; factgen's syntactic extraction (go/ast, no alias analysis); the Go race detector.",
+    "rule": "One PRNG: cases (mix seed goroutines opsPerGoroutine gomaxprocs) with goroutines in {2,4,8,16,32}, GOMAXPROCS cycling "
+            "through {1,2,4,8,16}; per goroutine a seeded sequence over 10 kinds of operation; plus one (facts) case evaluating the "
+            "discipline on the regenerated table and one (sample) case.",
+    "trusted": ["harness/cmd/factgen: syntactic (go/ast) extraction of package-level accesses and held mutexes; no alias or call-graph analysis",
+                "the Go race detector (happens-before detector of the real runtime) as search tool",
+                "result equivalence is judged by the harness itself (concurrent results vs the same operations run alone, same process)"],
+    "assumptions": ["user code does not write the library's exported package-level variables",
+                    "a fact row is one access under its syntactic lock set; thread programs are arbitrary sequences of rows"],
+}
 
 PROPS["C18"] = {
     "lean_modules": ["AvroModel.Props.C18"],
